@@ -4,6 +4,11 @@ from pvc.world import ClassInfo
 
 def register(w):
   w.add_class(ClassInfo('AST'))
+  # attributes of arbitrary Python callables read by name
+  w.add_class(ClassInfo('PyCallable', fields={
+      '__code__': 'Any', '__func__': 'Any', '__self__': 'Any', '__closure__': 'Any', '__globals__': 'Any',
+      '__defaults__': 'Any', '__kwdefaults__': 'Any', '__class__': 'Any', '__call__': 'Any', '__module__': 'Any',
+      'func': 'Any', 'args': 'Any', 'keywords': 'Any', 'co_filename': 'Any', 'co_freevars': 'Any'}))
   w.add_class(ClassInfo('Scope', module='malt.pyct.static_analysis.activity', fields={
       'read': 'Set[QN]', 'modified': 'Set[QN]', 'deleted': 'Set[QN]', 'bound': 'Set[QN]',
       'globals': 'Set[QN]', 'nonlocals': 'Set[QN]', 'annotations': 'Set[QN]',
